@@ -18,10 +18,10 @@ import (
 func init() { log.SetOutput(io.Discard) }
 
 // ReaderFormats lists every reader configuration exercised.
-var ReaderFormats = []string{"srt", "vtt", "ssa", "ssa-opts", "stl", "stl-ignoretc", "ttml", "ts", "ts-auto"}
+var ReaderFormats = []string{"srt", "vtt", "ssa", "ssa-opts", "ssa-cb", "stl", "stl-ignoretc", "ttml", "ts", "ts-auto", "ts-pid", "ts-page"}
 
 // WriterFormats lists every writer configuration exercised.
-var WriterFormats = []string{"srt", "vtt", "ssa", "stl", "ttml", "ttml-noindent"}
+var WriterFormats = []string{"srt", "vtt", "ssa", "stl", "ttml", "ttml-noindent", "ttml-tab"}
 
 // TSPID / TSPage are the PID and page number the corpus' transport streams use.
 const (
@@ -31,6 +31,13 @@ const (
 
 // Read calls the reader for format on r. Panics are captured.
 func Read(format string, r io.Reader) (s *astisub.Subtitles, err error, panicked string) {
+	s, err, panicked, _ = ReadCB(format, r)
+	return
+}
+
+// ReadCB is Read plus what the option callbacks of the configuration observed ("ssa-cb": the unknown
+// section names and the invalid lines, in call order): part of the observable result of the call.
+func ReadCB(format string, r io.Reader) (s *astisub.Subtitles, err error, panicked string, callbacks []string) {
 	defer func() {
 		if p := recover(); p != nil {
 			panicked = fmt.Sprintf("%v\n%s", p, debug.Stack())
@@ -46,6 +53,11 @@ func Read(format string, r io.Reader) (s *astisub.Subtitles, err error, panicked
 		s, err = astisub.ReadFromSSA(r)
 	case "ssa-opts":
 		s, err = astisub.ReadFromSSAWithOptions(r, astisub.SSAOptions{})
+	case "ssa-cb":
+		s, err = astisub.ReadFromSSAWithOptions(r, astisub.SSAOptions{
+			OnUnknownSectionName: func(name string) { callbacks = append(callbacks, "section:"+name) },
+			OnInvalidLine:        func(line string) { callbacks = append(callbacks, "invalid:"+line) },
+		})
 	case "stl":
 		s, err = astisub.ReadFromSTL(r, astisub.STLOptions{})
 	case "stl-ignoretc":
@@ -56,6 +68,10 @@ func Read(format string, r io.Reader) (s *astisub.Subtitles, err error, panicked
 		s, err = astisub.ReadFromTeletext(r, astisub.TeletextOptions{PID: TSPID, Page: TSPage})
 	case "ts-auto":
 		s, err = astisub.ReadFromTeletext(r, astisub.TeletextOptions{})
+	case "ts-pid":
+		s, err = astisub.ReadFromTeletext(r, astisub.TeletextOptions{PID: TSPID})
+	case "ts-page":
+		s, err = astisub.ReadFromTeletext(r, astisub.TeletextOptions{Page: TSPage})
 	default:
 		panic("api: unknown reader format " + format)
 	}
@@ -64,7 +80,7 @@ func Read(format string, r io.Reader) (s *astisub.Subtitles, err error, panicked
 
 // ReadOutcome runs Read and folds the result into an Outcome.
 func ReadOutcome(format string, r io.Reader) canon.Outcome {
-	s, err, p := Read(format, r)
+	s, err, p, cb := ReadCB(format, r)
 	switch {
 	case p != "":
 		return canon.Outcome{Class: "panic", Err: p}
@@ -72,6 +88,9 @@ func ReadOutcome(format string, r io.Reader) canon.Outcome {
 		return canon.Outcome{Class: "error", Err: err.Error()}
 	}
 	o := canon.Outcome{Class: "ok", Canon: canon.Bytes(s)}
+	if len(cb) > 0 {
+		o.Canon = append(o.Canon, canon.Bytes(cb)...)
+	}
 	if s != nil {
 		o.Items = len(s.Items)
 	}
@@ -98,6 +117,8 @@ func Write(format string, s *astisub.Subtitles, w io.Writer) (err error, panicke
 		err = s.WriteToTTML(w)
 	case "ttml-noindent":
 		err = s.WriteToTTML(w, astisub.WriteToTTMLWithIndentOption(""))
+	case "ttml-tab":
+		err = s.WriteToTTML(w, astisub.WriteToTTMLWithIndentOption("\t"))
 	default:
 		panic("api: unknown writer format " + format)
 	}
